@@ -100,6 +100,19 @@ def run(ctx, impl_only=False):
             t1, t2 = inner1, inner2
         if FAM.in_universe(t1, t2):
             pairs.append((t1, t2))
+    # one container object at several places of t1, and likewise of t2 (shared defaults, YAML anchors, deepcopy keeps the sharing): a path names one place
+    def _shared():
+        s1, s2 = {'port': 1, 'host': 'a'}, {'port': 2, 'host': 'a'}
+        yield {'primary': s1, 'fallback': s1}, {'primary': s2, 'fallback': s2}
+        r1, r2 = [1, 2, 3], [1, 5, 3]
+        yield {'a': r1, 'b': r1, 'c': 0}, {'a': r2, 'b': r2, 'c': 0}
+        d1, d2 = {'x': {'y': 1}}, {'x': {'y': 2}, 'z': 3}
+        yield [d1, d1], [d2, d2]
+        yield {'k1': {'a': s1}, 'dd': {'a': s1}}, {'k1': {'a': s2}, 'dd': {'a': s2}}
+        yield {'a': r1, 'b': {'c': r1}}, {'a': r2, 'b': {'c': r2}}
+    for (t1, t2) in _shared():
+        pairs.append((t1, t2))
+        pairs.append((copy.deepcopy(t1), copy.deepcopy(t2)))          # deepcopy keeps the sharing inside each value
     lines, metas = [], []
     for (t1, t2) in pairs:
         paths, strk = {}, {}
